@@ -68,7 +68,9 @@ def prov_tag(n, pools, parts, mn, split, lo, hi):
             return 'C09/took-machine-from-another-reservation'
     if [m.id for m in r['idle'].get('B', [])] != before_B:
         return 'C09/other-reservation-changed'
-    return cluster_invariant(c)
+    if sorted(pool_ids(c)) != sorted(m.id for m in c.machines):
+        return 'C09/provisioning-lost-or-duplicated-a-machine'
+    return None
 
 
 def prov_ok_tag(p0, p1, p2, p3, parts, mn, split, lo, hi):
@@ -151,14 +153,13 @@ def _life(p0, p1, p2, edge, other, da, db):
                 if any(m.id in resA for m in c._resources['ingest']):
                     return 'C09/ingest-took-reserved-machine'
         env.run(env.now + 1)
-        t = cluster_invariant(c, False)
-        if t:
-            return t
     else:
         return 'C09/workflow-never-finishes-on-its-reservation'
     if c.is_observation_provisioned('A') or c.get_idle_resources('A'):
         return 'C09/reservation-not-released-after-last-task'
-    return cluster_invariant(c, False)
+    if len(c._resources['available']) + len(c._resources['ingest']) + len(c._resources['occupied']) + sum(len(v) for v in c._resources['idle'].values()) != 3:
+        return 'C09/release-lost-or-duplicated-a-machine'
+    return None
 
 
 def life(p1: int, p2: int, edge: bool, da: int, db: int) -> bool:
